@@ -975,6 +975,11 @@ func (p *Parser) parseSingleType(typeParamNames []string) (ast.Type, error) {
 // parseTypeWithContext parses a type annotation with optional type parameter context
 // The typeParamNames parameter contains names of type parameters in scope (for generic definitions)
 func (p *Parser) parseTypeWithContext(typeParamNames []string) (ast.Type, bool, error) {
+	if err := p.enterNested(); err != nil {
+		return nil, false, err
+	}
+	defer p.leaveNested()
+
 	var baseType ast.Type
 	required := false
 
@@ -1946,6 +1951,11 @@ func (p *Parser) parseRateLimit() (*ast.RateLimit, error) {
 
 // parseStatement parses a statement
 func (p *Parser) parseStatement() (ast.Statement, error) {
+	if err := p.enterNested(); err != nil {
+		return nil, err
+	}
+	defer p.leaveNested()
+
 	switch p.current().Type {
 	case QUESTION:
 		// ? validate_fn(args)                 -- validation assertion
@@ -2321,7 +2331,11 @@ func (p *Parser) parseIfStatement() (ast.Statement, error) {
 		// Check for "else if"
 		if p.check(IDENT) && p.current().Literal == "if" {
 			// Parse as nested if statement
+			if err := p.enterNested(); err != nil {
+				return nil, err
+			}
 			ifStmt, err := p.parseIfStatement()
+			p.leaveNested()
 			if err != nil {
 				return nil, err
 			}
@@ -2619,6 +2633,22 @@ func (p *Parser) parseSwitchStatement() (ast.Statement, error) {
 	}, nil
 }
 
+// enterNested counts one level of a recursive production that does not pass
+// through parseExpr (statement blocks, else-if chains, unary chains, types,
+// patterns). Without it the recursion is bounded only by the goroutine stack,
+// and exhausting that is a fatal error that cannot be recovered.
+func (p *Parser) enterNested() error {
+	p.depth++
+	if p.depth > maxParseDepth {
+		p.depth--
+		return fmt.Errorf("maximum nesting depth exceeded (%d levels)", maxParseDepth)
+	}
+	return nil
+}
+
+// leaveNested undoes enterNested.
+func (p *Parser) leaveNested() { p.depth-- }
+
 // parseExpr parses an expression with operator precedence
 func (p *Parser) parseExpr() (ast.Expr, error) {
 	p.depth++
@@ -2802,6 +2832,13 @@ func (p *Parser) currentCommandDefaultBinaryOp() (ast.BinOp, int) {
 
 // parseUnary parses unary expressions (!, -)
 func (p *Parser) parseUnary() (ast.Expr, error) {
+	if p.check(BANG) || p.check(MINUS) {
+		if err := p.enterNested(); err != nil {
+			return nil, err
+		}
+		defer p.leaveNested()
+	}
+
 	// Check for unary NOT operator
 	if p.check(BANG) {
 		tok := p.current()
@@ -5083,6 +5120,11 @@ func (p *Parser) parseMatchExpr() (ast.Expr, error) {
 
 // parsePattern parses a pattern for match expressions
 func (p *Parser) parsePattern() (ast.Pattern, error) {
+	if err := p.enterNested(); err != nil {
+		return nil, err
+	}
+	defer p.leaveNested()
+
 	switch p.current().Type {
 	case INTEGER:
 		// Literal integer pattern
